@@ -171,3 +171,23 @@ Proof. vm_compute. reflexivity. Qed.
 Example anchor_filter_ip :
   entry 0 [10; 1; 4;1;2;3;2; 1; 1;0;4;4; 4] = [1; 0; 2;2;2; 1000; 0; 4;2;2;3;1].
 Proof. vm_compute. reflexivity. Qed.
+(* Chunk(s = [1;2;3;4;0], 2): three windows on s, outer capacity 3 *)
+Example anchor_chunk :
+  entry 0 [17; 1; 5;1;2;3;4;0; 1; 1;0;5;5; 2] = [3; 0;2;1;2;1000; 0;2;3;4;1002; 0;1;0;1004; 2;0;3; 5;1;2;3;4;0].
+Proof. vm_compute. reflexivity. Qed.
+(* Remove(s = [3;1;2;0], 1) = ([3;2;0], 1, true); the array ends with the zeroed slot *)
+Example anchor_remove :
+  entry 0 [21; 1; 4;3;1;2;0; 1; 1;0;4;4; 1] = [1; 0;3;3;2;0;1000; 2;1;1; 4;3;2;0;0].
+Proof. vm_compute. reflexivity. Qed.
+(* FlexSlice{}: Append(1,2,3) (Go reported cap 3), Prepend of 9 values (cap 3 -> exactly 12), Remove(3), Shift *)
+Example anchor_flex :
+  entry 0 [22; 0; 0; 4; 5;0;3;1;2;3; 10;1;7;6;5;4;3;2;1;0;9; 2;3;3; 1;6] =
+  [0; 3;1;2;3; 3;  0; 12;7;6;5;4;3;2;1;0;9;1;2;3; 12;  2;4;1; 11;7;6;5;3;2;1;0;9;1;2;3; 12;  2;7;1; 10;6;5;3;2;1;0;9;1;2;3; 12].
+Proof. vm_compute. reflexivity. Qed.
+(* the judge rejects FilterInPlace losing an element: [0;1] keep {1} -> array [1;1] *)
+Example anchor_judge_rejects :
+  entry 2 (put_list [10; 1; 2;0;1; 1; 1;0;2;2; 2] ++ put_list [1; 0;1;1;1000; 0; 2;1;1]) = [0].
+Proof. vm_compute. reflexivity. Qed.
+Example anchor_judge_accepts :
+  entry 2 (put_list [10; 1; 2;0;1; 1; 1;0;2;2; 2] ++ put_list [1; 0;1;1;1000; 0; 2;1;0]) = [1].
+Proof. vm_compute. reflexivity. Qed.
